@@ -63,9 +63,9 @@ def sanitizersForAttributeValue (v : Validators) (c : Ctx) : Option (List String
       if !sc0.isURLorTRU then
         -- context None: stringify first, so that even a safehtml.HTML value is escaped inside the attribute
         some (appendIfNotEmpty [fnHTML] (if sanitizer == "" then fnEvalArgs else sanitizer)).reverse
+      else if c.ambiguous then none
       else if c.attrValue == [] then
         some (appendIfNotEmpty (appendIfNotEmpty [fnHTML] fnNormalizeURL) sanitizer).reverse
-      else if c.ambiguous then none
       else
         let ok := match urlPrefixValidators.find? (fun r => r.1 == sc0) with
           | some (_, "validateURLPrefix") => some (v.url c.attrValue)
